@@ -96,7 +96,16 @@ def main():
     finally:
         shutil.copytree(bak, ev, dirs_exist_ok=True)
         shutil.rmtree(bak)
-    json.dump(saved, open(rp, 'w'), indent=1, sort_keys=True)
+    # merge into the file as it is now (several of these may run at once)
+    import fcntl
+    with open(os.path.join(tempfile.gettempdir(), 'seeded_results.lock'),
+              'w') as lk:
+        fcntl.flock(lk, fcntl.LOCK_EX)
+        now = json.load(open(rp)) if os.path.exists(rp) else dict()
+        for (name, pid, seed) in results:
+            k = f'{pid}@{tier}:{seed}'
+            now.setdefault(name, dict())[k] = saved[name][k]
+        json.dump(now, open(rp, 'w'), indent=1, sort_keys=True)
     missed = [k for k, v in results.items() if v == 'MISSED']
     print(f'{len(results)} runs; missed: {missed}')
     return 1 if missed else 0
